@@ -9,7 +9,8 @@ META = {
             "returned normally and the whole library must satisfy the C03 predicate (every function matched to one recorded unique, recorded "
             "parameter map exact numerically, 'nan' only with fewer parameters, uniques distinct and gap-free). Quick: every fault point (all "
             "visits of all executed lines) of the basis {x, a, -} at complexity 3, the first visit of every executed line of core_maths 3 and "
-            "core_maths 4, a sample of first visits on ext_maths 3. Thorough: every fault point of "
+            "core_maths 4, a sample of first visits on ext_maths 3, and for core_maths 5 one run per chosen line (first statement, last four statements and end of every region, 16 sampled others; thorough: every line) in which that line times out at EVERY visit (a step "
+            "that keeps timing out for every function and every round). Thorough: every fault point of "
             "core_maths 3, first three + middle + last visit of every line on core_maths 4 and ext_maths 3, sampled visits on ext_maths 4, and "
             "the lines reached only by keep_duplicates 3 / core_maths 5. Interruption points are statement boundaries of the region bodies "
             "(each statement has at most one side effect, at its end); single faults exhaustively on the smallest library only.",
@@ -34,6 +35,8 @@ def jobs_for(tier):
             {"runname": "core_maths", "n": 4, "select": {"K": 1, "multi": 2}},
             {"runname": "ext_maths", "n": 3, "select": {"K": 1, "sample_old": 36, "multi": 2}},
             {"runname": "verif_c15tiny", "n": 3, "basis": TINY, "select": {"exhaustive": True}},
+            # every visit of one line times out (one run per executed line): a step that keeps timing out for every function
+            {"runname": "core_maths", "n": 5, "select": {"K": 0, "persistent": 16}},
         ]
     return [
         {"runname": "core_maths", "n": 3, "select": {"exhaustive": True, "multi": 10}},
@@ -42,11 +45,13 @@ def jobs_for(tier):
         {"runname": "keep_duplicates", "n": 3, "select": {"K": 3, "spread": True, "only_new_lines": True}},
         {"runname": "ext_maths", "n": 4, "select": {"K": 1, "spread": True, "sample": 120}},
         {"runname": "core_maths", "n": 5, "select": {"K": 1, "spread_n": 4, "only_new_lines": True}},
+        {"runname": "core_maths", "n": 5, "select": {"K": 0, "persistent": "all"}},
+        {"runname": "ext_maths", "n": 4, "select": {"K": 0, "persistent": "all"}},
     ]
 
 
 def spec_key(runname, n, specs):
-    return "c15:%s:%d:%s" % (runname, n, "+".join("line%s:visit%s" % (l, k) for l, k in specs))
+    return "c15:%s:%d:%s" % (runname, n, "+".join("line%s:%s" % (l, "visit%s" % k if k else "every-visit") for l, k in specs))
 
 
 def check(run):
